@@ -274,7 +274,6 @@ def stepLine (d : D) (line : String) : D × String :=
     -- TxManager.GetTxRequests for this node + BitcoinNode.RequestTxs, then the barrier
     if d.mode != .open_ then (d, "dead")
     else if !d.base.hasTx then (d, "req=notx")
-    else if !d.pending.isEmpty then (d, "req=busy")
     else
       let (s', k) := txPoll d.base
       let d1 := { d with base := s', view := { s' with ready := d.view.ready, verified := d.view.verified, hsComplete := d.view.hsComplete } }
